@@ -28,6 +28,22 @@ def str_chars(node, what):
     raise TieBroken(f"{what}: expected frozenset(<string literal>)")
 
 
+def lit_chars(node, what):
+    """A string literal used as a set of characters -> list of one-character strings."""
+    if isinstance(node, ast.Constant) and isinstance(node.value, str):
+        return list(node.value)
+    raise TieBroken(f"{what}: expected a string literal")
+
+
+def need(mod, fn, constants):
+    """Fail closed when a string constant the model mirrors no longer occurs in the function
+    (insensitive to renamings and re-orderings of the code around it)."""
+    have = {n.value for n in ast.walk(func(mod, fn)) if isinstance(n, ast.Constant) and isinstance(n.value, str)}
+    for c in constants:
+        if c not in have:
+            raise TieBroken(f"{fn}: string constant {c!r} no longer used")
+
+
 def build():
     out = []
     mods = {m: load(f"cli/{m}.py") for m in MODELLED}
@@ -51,25 +67,37 @@ def build():
                 raise TieBroken(f"command {c!r} is claimed by {claimed.get(c)} - dispatch to cli/{m}.py is no longer unique")
         out.append(coq_strs(f"{m.upper()}_COMMANDS", cmds, f"cli/{m}.py COMMANDS"))
 
-    # (HANDLES_HELP and redirect_targets of a handler are read through the handler oracle of
-    #  Model/Ladder.v, and the wrapper loop is modelled there from WRAPPER_FLAGS_WITH_ARG /
-    #  WRAPPER_OPERANDS regenerated by t00_core.py - no tie needed here)
-    an = load("core/analyzer.py")
-    sc = func(an, "_analyze_simple_command")
-    src = ast.unparse(sc)
-    for needle in ("'=' in words[i] and (not words[i].startswith('-'))", "remote=result.remote"):
-        if needle not in src:
-            raise TieBroken(f"_analyze_simple_command: expected fragment not found: {needle}")
+    # the modelled handlers return no redirect targets (HANDLES_HELP is the ladder model's business)
+    for m in MODELLED:
+        with open(os.path.join(SRC, "cli", f"{m}.py"), encoding="utf-8") as f:
+            text = f.read()
+        if "redirect_targets" in text:
+            raise TieBroken(f"cli/{m}.py now returns redirect_targets: Wrappers.hverdict must be extended")
+
+    # shell
+    shm = mods["shell"]
+    out.append(coq_strs("SHELL_LONG_WITH_ARG", const_strs(module_assign(shm, "LONG_WITH_ARG"), "shell LONG_WITH_ARG"), "cli/shell.py LONG_WITH_ARG"))
+    out.append(coq_strs("SHELL_LONG_NO_ARG", const_strs(module_assign(shm, "LONG_NO_ARG"), "shell LONG_NO_ARG"), "cli/shell.py LONG_NO_ARG"))
+    need(shm, "classify", ["--help", "--version", "-+", "c", "o", "O", "-", "--"])
 
     # env
-    out.append(coq_strs("ENV_FLAGS_WITH_ARG", const_strs(module_assign(mods["env"], "FLAGS_WITH_ARG"), "env FLAGS_WITH_ARG"),
-                        "cli/env.py FLAGS_WITH_ARG"))
-    et = in_tuples(func(mods["env"], "classify"), "env")
-    out.append(coq_strs("ENV_SPLIT_FLAGS", pick(et, ["-S", "--split-string"], "env -S"), "cli/env.py: separate-word split-string flags"))
+    ev = mods["env"]
+    out.append(coq_strs("ENV_LONG_OPTIONS", const_strs(module_assign(ev, "LONG_OPTIONS"), "env LONG_OPTIONS"), "cli/env.py LONG_OPTIONS"))
+    out.append(coq_strs("ENV_LONG_WITH_ARG", const_strs(module_assign(ev, "LONG_WITH_ARG"), "env LONG_WITH_ARG"), "cli/env.py LONG_WITH_ARG"))
+    out.append(coq_strs("ENV_SHORT_WITH_ARG", lit_chars(module_assign(ev, "SHORT_WITH_ARG"), "env SHORT_WITH_ARG"),
+                        "cli/env.py SHORT_WITH_ARG (one-character strings)"))
+    need(ev, "classify", ["split-string", "S", "-", "--", "="])
 
     # xargs
     out.append(coq_strs("XARGS_FLAGS_WITH_ARG", const_strs(module_assign(mods["xargs"], "FLAGS_WITH_ARG"), "xargs FLAGS_WITH_ARG"),
                         "cli/xargs.py FLAGS_WITH_ARG"))
+    xa = mods["xargs"]
+    out.append(coq_strs("XARGS_LONG_OPTIONS", const_strs(module_assign(xa, "LONG_OPTIONS"), "xargs LONG_OPTIONS"), "cli/xargs.py LONG_OPTIONS"))
+    out.append(coq_strs("XARGS_LONG_WITH_ARG", const_strs(module_assign(xa, "LONG_WITH_ARG"), "xargs LONG_WITH_ARG"), "cli/xargs.py LONG_WITH_ARG"))
+    out.append(coq_strs("XARGS_SHORT_OPTIONAL_ARG", lit_chars(module_assign(xa, "SHORT_OPTIONAL_ARG"), "xargs SHORT_OPTIONAL_ARG"),
+                        "cli/xargs.py SHORT_OPTIONAL_ARG (one-character strings)"))
+    need(xa, "_skip_flags", ["--", "-", "="])
+    need(xa, "classify", ["-I", "-i", "--replace", "--rep", "-J", "I", "{}", "--interactive", "--open-tty"])
     out.append(coq_strs("XARGS_UNSAFE_FLAGS", const_strs(module_assign(mods["xargs"], "UNSAFE_FLAGS"), "xargs UNSAFE_FLAGS"),
                         "cli/xargs.py UNSAFE_FLAGS"))
 
@@ -77,15 +105,14 @@ def build():
     ft = in_tuples(func(mods["find"], "classify"), "find")
     out.append(coq_strs("FIND_OK_FLAGS", pick(ft, ["-ok", "-okdir"], "find -ok"), "cli/find.py interactive exec flags"))
     out.append(coq_strs("FIND_EXEC_FLAGS", pick(ft, ["-exec", "-execdir"], "find -exec"), "cli/find.py exec flags"))
-    out.append(coq_strs("FIND_TERMINATORS", pick(ft, [";", "+"], "find terminators"), "cli/find.py clause terminators"))
+    out.append(coq_strs("FIND_TERMINATORS", pick(ft, [";", "\\;"], "find terminators"), "cli/find.py clause terminators (a + counts only after {})"))
+    need(mods["find"], "classify", ["+", "{}", "-delete"])
 
     # fd
     out.append(coq_strs("FD_EXEC_FLAGS", const_strs(module_assign(mods["fd"], "EXEC_FLAGS"), "fd EXEC_FLAGS"), "cli/fd.py EXEC_FLAGS"))
     out.append(coq_strs("FD_SHORT_NOARG", str_chars(module_assign(mods["fd"], "_SHORT_NOARG"), "fd _SHORT_NOARG"),
                         "cli/fd.py _SHORT_NOARG (one-character strings)"))
-    fdsrc = ast.unparse(func(mods["fd"], "classify"))
-    if "for flag in ('--exec-batch=', '--exec=', '-x', '-X')" not in fdsrc or "token[k] in 'xX'" not in fdsrc:
-        raise TieBroken("fd classify: attached-form tuple changed")
+    need(mods["fd"], "classify", [";", "\\;", "fd", "; ", "ask", "delegate", "--exec-batch=", "--exec=", "-x", "-X", "xX"])
 
     # docker
     dk = mods["docker"]
@@ -93,6 +120,8 @@ def build():
                         "cli/docker.py GLOBAL_FLAGS_WITH_ARG"))
     out.append(coq_strs("DOCKER_EXEC_FLAGS_WITH_ARG", const_strs(module_assign(dk, "EXEC_FLAGS_WITH_ARG"), "docker EXEC_FLAGS_WITH_ARG"),
                         "cli/docker.py EXEC_FLAGS_WITH_ARG"))
+    out.append(coq_strs("DOCKER_EXEC_SHORT_WITH_ARG", lit_chars(module_assign(dk, "EXEC_SHORT_WITH_ARG"), "docker EXEC_SHORT_WITH_ARG"),
+                        "cli/docker.py EXEC_SHORT_WITH_ARG (one-character strings)"))
     out.append(coq_strs("DOCKER_SAFE_ACTIONS", const_strs(module_assign(dk, "SAFE_ACTIONS"), "docker SAFE_ACTIONS"), "cli/docker.py SAFE_ACTIONS"))
     out.append(coq_strs("DOCKER_SUBCMD_KEYS", dict_keys(module_assign(dk, "SAFE_SUBCOMMANDS"), "docker SAFE_SUBCOMMANDS")
                         + dict_keys(module_assign(dk, "UNSAFE_SUBCOMMANDS"), "docker UNSAFE_SUBCOMMANDS"),
@@ -104,6 +133,8 @@ def build():
     kc = mods["kubectl"]
     kt = in_tuples(func(kc, "classify"), "kubectl")
     out.append(coq_strs("KUBECTL_FLAGS_WITH_ARG", pick(kt, ["-n", "--namespace"], "kubectl flags"), "cli/kubectl.py classify: global flags with an argument"))
+    out.append(coq_strs("KUBECTL_EXEC_BOOL_FLAGS", const_strs(module_assign(kc, "EXEC_BOOL_FLAGS"), "kubectl EXEC_BOOL_FLAGS"), "cli/kubectl.py EXEC_BOOL_FLAGS"))
+    need(kc, "_extract_exec_inner_command", ["cnfsv", "itq", "--", "-", "="])
     out.append(coq_strs("KUBECTL_SAFE_ACTIONS", const_strs(module_assign(kc, "SAFE_ACTIONS"), "kubectl SAFE_ACTIONS"), "cli/kubectl.py SAFE_ACTIONS"))
     out.append(coq_strs("KUBECTL_SUBCMD_KEYS", dict_keys(module_assign(kc, "SAFE_SUBCOMMANDS"), "kubectl SAFE_SUBCOMMANDS")
                         + dict_keys(module_assign(kc, "UNSAFE_SUBCOMMANDS"), "kubectl UNSAFE_SUBCOMMANDS"),
@@ -117,11 +148,8 @@ def build():
     cf = mods["caffeinate"]
     out.append(coq_strs("CAFF_FLAGS_NO_ARG", const_strs(module_assign(cf, "FLAGS_NO_ARG"), "caffeinate FLAGS_NO_ARG"), "cli/caffeinate.py FLAGS_NO_ARG"))
     out.append(coq_strs("CAFF_FLAGS_WITH_ARG", const_strs(module_assign(cf, "FLAGS_WITH_ARG"), "caffeinate FLAGS_WITH_ARG"), "cli/caffeinate.py FLAGS_WITH_ARG"))
-    if "all((c in 'dismu' for c in token[1:]))" not in ast.unparse(func(cf, "classify")):
-        raise TieBroken("caffeinate classify: combined-flag test changed")
-    tsrc = ast.unparse(func(mods["tar"], "_extract_to_command"))
-    if "t.startswith('--to-command=')" not in tsrc or "return t[13:]" not in tsrc or "t == '--to-command' and i + 1 < len(tokens)" not in tsrc:
-        raise TieBroken("tar _extract_to_command changed")
+    need(cf, "classify", ["dismu", "-"])
+    need(mods["tar"], "_extract_to_command", ["--to-command=", "--to-command"])
     sp = mods["script"]
     out.append(coq_strs("SCRIPT_FLAGS_WITH_ARG", const_strs(module_assign(sp, "FLAGS_WITH_ARG"), "script FLAGS_WITH_ARG"), "cli/script.py FLAGS_WITH_ARG"))
     uv = mods["uv"]
@@ -129,8 +157,7 @@ def build():
     early = (pick(ut, ["--version", "help"], "uv help set") + const_strs(module_assign(uv, "SAFE_COMMANDS"), "uv SAFE_COMMANDS")
              + dict_keys(module_assign(uv, "SAFE_SUBCOMMANDS"), "uv SAFE_SUBCOMMANDS")
              + dict_keys(module_assign(uv, "UNSAFE_SUBCOMMANDS"), "uv UNSAFE_SUBCOMMANDS") + ["pip"])
-    if "if action == 'pip'" not in ast.unparse(func(uv, "classify")) or "if action == 'run'" not in ast.unparse(func(uv, "classify")):
-        raise TieBroken("uv classify: action dispatch changed")
+    need(uv, "classify", ["pip", "run"])
     out.append(coq_strs("UV_EARLY_ACTIONS", early, "cli/uv.py classify: actions decided before 'run' is looked at"))
     out.append(coq_strs("UV_RUN_FLAGS_WITH_ARG", const_strs(module_assign(uv, "RUN_FLAGS_WITH_ARG"), "uv RUN_FLAGS_WITH_ARG"), "cli/uv.py RUN_FLAGS_WITH_ARG"))
     return out
